@@ -1107,6 +1107,17 @@ def gen_wave2():
     flows["main"] = main
     scenario("oof-12", "oof", doc(css, "\n".join(body)), expect=dict(flows=flows, margin=True, page_w=260, page_h=200, conserve=True, line_height=12))
 
+    # a line laid out twice (taller than the strut, colliding with a second stacked float) that holds a float too
+    # wide to fit beside its text ("waiting float"), page as wide as the demo structure needs
+    css = "@page { size: 100px 200px; margin: 0 }\nhtml, body { margin: 0; font-family: ahem; font-size: 10px; line-height: 10px }\np { margin: 0 } .f1 { float: left; width: 20px; height: 10px } .f2 { float: left; clear: left; width: 60px; height: 10px }\n.w { float: left; width: 90px } .w2 { float: left; width: 75px } .big { font-size: 20px } .c { clear: both; height: 3px }\n"
+    body, flows, main = [], {}, []
+    for j, (wc, f2) in enumerate([("w", True), ("w2", True), ("w", False), ("w", True)]):
+        fl = "F%d" % j; flows["fw%d" % j] = [fl]
+        ws = ["a%d" % j, "B%d" % j, "c%d" % j, "d%d" % j]; main += ws
+        body.append('<div class=f1></div>%s<p>%s <span class=%s>%s</span><span class=big>%s</span> %s %s</p><div class=c></div>' % ('<div class=f2></div>' if f2 else "", ws[0], wc, fl, ws[1], ws[2], ws[3]))
+    flows["main"] = main
+    scenario("oof-13", "oof", doc(css, "\n".join(body)), expect=dict(flows=flows, page_w=100, page_h=200, conserve=True, line_height=10))
+
     # (d) table rows split by a page break: several cells of the row cut, cells after a colspan cell, rowspans
     css = page_css(300, 130, 10) + BASE + "table { border-collapse: separate; border-spacing: 2px; width: 100% } td { padding: 0; vertical-align: top }\n"
     flows, rows = {}, []
